@@ -23,7 +23,11 @@ RULE = ('planted designs from one PRNG state: response length L 2..8 (quick; to 
         'recordings stored as uint8/uint16/int16/int32/int64/float32/big-endian and read-only, event series in other dtypes, noisy float32 recordings; '
         'sampling interval as number / time object / rate, offset and len_et as numpy integers, Events with data columns; two analyzers with different '
         'options alive at once on the same input objects, cases re-run at the end of the process, xcorr_eta reads inside the read orders, results '
-        'overwritten by the caller right after each read; distinct = distinct protocol line; '
+        'overwritten by the caller right after each read; ROUND 2: failure histories on one analyzer (a later channel refused, ragged rows, events series of another length, '
+        'Events outside the recording, refused constructor arguments) with snapshots, in-place repairs and new analyzers on the same objects; both sides of every guard / range '
+        '(occurrence counts 127..257 and 32768, zero channels next to tiny ones, first / last admissible samples, offsets around len_et, caller-side codes 1.5 / 200 / 70000 / -0.0); '
+        'aliased arguments (views of one base array, one object in both roles, strided / reversed / transposed views, Events cut from the time axis, in-place changes between two analyzers); '
+        'distinct = distinct protocol line; '
         'non-trivial = at least one event and a non-zero signal')
 ASSUMPTIONS = ['event codes are integers; responses and data are finite binary64 values (planted ones integer-valued)',
                'a recording stored in another dtype IS its exact float64 embedding (integers of magnitude < 2^53, float32): the spec, the model and the oracle work on those numbers',
@@ -1484,6 +1488,8 @@ def rerun_check(sp, first=None):
 
 
 def linear_check(m, a, nseed):
+    if m.get('alias') in ('same', 'samearray'):      # the recording IS the event series: other data = other events
+        return None
     r = np.random.RandomState(nseed)
     y1 = np.array(m['data'])
     y2 = np.round(r.uniform(-8, 8, size=len(y1)))
@@ -1508,6 +1514,8 @@ def scale_check(m, gains):
     """per-channel homogeneity: the estimate of diag(g)·Y is diag(g)·(estimate of Y) -- FIR, eta, et_data; ets with |g| --
     every channel judged at its own scale (tolerance relative to g[ch] times that channel's data / estimate magnitude)"""
     C, N, w = n_channels(m), m['N'], m['what']
+    if m.get('alias') in ('same', 'samearray'):
+        return None
     rp = {'spec': m, 'scale': [float(g) for g in gains]}
     q = dict(m)
     q['data'] = [float(gains[ch]) * v for ch in range(C) for v in m['data'][ch * N:(ch + 1) * N]]
